@@ -183,7 +183,10 @@ def run_edate(shard, ctx):
         return
     base = dt.datetime(2023, 1, 1)
     starts = [base + dt.timedelta(days=i) for i in range(0, 800)] + [dt.datetime(1900, 1, 31), dt.datetime(2000, 2, 29),
-                                                                      dt.datetime(2100, 1, 31), dt.datetime(9990, 12, 31)]
+                                                                      dt.datetime(2100, 1, 31), dt.datetime(9990, 12, 31),
+                                                                      # the last months of the calendar (9999-12-31 is the usual open end of validity tables)
+                                                                      dt.datetime(9999, 12, 31), dt.datetime(9999, 12, 1), dt.datetime(9999, 11, 30), dt.datetime(9999, 1, 31),
+                                                                      dt.datetime(9998, 12, 15), dt.datetime(9999, 10, 31), dt.datetime(1900, 1, 1), dt.datetime(1900, 3, 1)]
     pts = shard.get('points')
     nt = 0
     for si, s in enumerate(starts):
